@@ -115,9 +115,11 @@ DIRECT = {"a": "a", "b": "b", "s": "outer[0]", "c": "getc()"}
 SETUP = ("require List import [reverse, append_all]; "
          "def mk() do def c = NULL; [fn() c, fn(v) do c = v; NULL end, fn(f) f(c), "
          "fn(v) do c += v; NULL end] end; "
-         "def lit_list() [1]; def lit_str() 'ab'; NULL")
+         "NULL")
+# per program (so that the literals are new program text every time)
 PROLOGUE = ("def a = NULL; def b = NULL; def outer = [NULL]; "
-            "def [getc, setc, withc, addc] = mk(); NULL")
+            "def [getc, setc, withc, addc] = mk(); "
+            "def lit_list() [1]; def lit_str() 'ab'; NULL")
 READ = "[string(a), string(b), string(outer[0]), string(getc())]"
 READ_ID = "[a, b, outer[0], getc()]"
 
@@ -377,13 +379,12 @@ def _run_chunk(cases):
 
 # ------------------------------------------------------------ binding A driver
 class Graph:
-    """The transition graph TLC printed: states, edges, shortest paths."""
+    """The transition graph TLC printed: states and edges."""
 
     def __init__(self):
-        self.inits = []            # normal-form states, in a canonical order
+        self.inits = []            # normal-form states
         self.edges = {}            # (pre, opkey) -> (op, post)
-        self.out = {}              # pre -> [(opkey)]
-        self.parent = {}           # state -> (pre, opkey) on a shortest path
+        self.out = {}              # pre -> [opkey]
 
     def add(self, res):
         for js in res.records("INIT"):
@@ -398,72 +399,81 @@ class Graph:
                 self.edges[(pre, ok)] = (op, post)
                 self.out.setdefault(pre, []).append(ok)
 
-    def paths(self):
-        self.inits.sort()
-        self.parent = {st: None for st in self.inits}
-        frontier = list(self.inits)
-        while frontier:
-            nxt = []
-            for st in frontier:
-                for ok in sorted(self.out.get(st, [])):
-                    post = self.edges[(st, ok)][1]
-                    if post not in self.parent:
-                        self.parent[post] = (st, ok)
-                        nxt.append(post)
-            frontier = nxt
 
-    def path(self, st):
-        steps = []
-        while self.parent[st] is not None:
-            pre, ok = self.parent[st]
-            steps.append((pre, ok))
-            st = pre
-        steps.reverse()
-        return st, steps
+def make_case(g, parent, pre, ok):
+    """The program for one transition: the path that reached its pre-state
+    (through transitions the implementation already followed) + the operation."""
+    steps = [(pre, ok)]
+    st = pre
+    while parent[st] is not None:
+        steps.append(parent[st])
+        st = parent[st][0]
+    steps.reverse()
+    case = {"label": f"G{g.inits.index(st) + 1}", "build": build_source(st),
+            "init_want": render_state(st), "steps": []}
+    for (p, k) in steps:
+        op, post = g.edges[(p, k)]
+        case["steps"].append({"src": op_source(op, kind_of(p, op["n"])), "op": op["op"],
+                              "want": render_state(post), "part": partition(post)})
+    return case
 
 
-def make_cases(g):
-    cases = []
-    for (pre, ok) in sorted(g.edges):
-        if pre not in g.parent:
-            continue            # (cannot happen: every pre-state was reached)
-        init, steps = g.path(pre)
-        steps = steps + [(pre, ok)]
-        case = {"label": f"G{g.inits.index(init) + 1}", "build": build_source(init),
-                "init_want": render_state(init), "steps": []}
-        for (p, k) in steps:
-            op, post = g.edges[(p, k)]
-            kind = kind_of(p, op["n"])
-            case["steps"].append({"src": op_source(op, kind), "op": op["op"],
-                                  "want": render_state(post), "part": partition(post)})
-        cases.append(case)
-    return cases
-
-
-def replay_cases(run, cases, pool):
-    chunks = [cases[i:i + 64] for i in range(0, len(cases), 64)]
-    evals = 0
-    results = []
-    for out in pool.imap(_run_chunk, chunks):
-        results.extend(out)
-    for case, r in zip(cases, results):
-        if "machinery" in r:
-            raise MachineryError(r["machinery"])
-        evals += r["evals"]
-        for kind, sample in r["drift"]:
-            run.drift(kind, sample)
-        if r["viol"]:
-            key, what = r["viol"]
-            if what.startswith("operation-does-not-finish"):
-                # re-run once, alone and with a generous limit, before believing it
-                _worker_init()
-                r2 = run_case(case, limit=12.0)
-                if not r2["viol"]:
-                    run.drift("slow-operation", {"program": key})
+def replay_graph(run, g, pool):
+    """Edge cover, level by level: every transition out of every state reached
+    so far is replayed; a state counts as reached only through transitions the
+    implementation followed exactly, so one defect is reported at the
+    transition that shows it and not again behind it."""
+    g.inits.sort()
+    parent = {st: None for st in g.inits}
+    frontier = list(g.inits)
+    stats = {"cases": 0, "evals": 0, "levels": [], "longest": 0, "confirmed_hangs": {}}
+    samples = []
+    while frontier:
+        level = [(st, ok) for st in frontier for ok in sorted(g.out.get(st, []))]
+        cases = [make_case(g, parent, st, ok) for st, ok in level]
+        chunks = [cases[i:i + 64] for i in range(0, len(cases), 64)]
+        results = []
+        for out in pool.imap(_run_chunk, chunks):
+            results.extend(out)
+        nxt = []
+        nbad = 0
+        for (st, ok), case, r in zip(level, cases, results):
+            if "machinery" in r:
+                raise MachineryError(r["machinery"])
+            stats["evals"] += r["evals"]
+            stats["longest"] = max(stats["longest"], len(case["steps"]))
+            for kind, sample in r["drift"]:
+                run.drift(kind, sample)
+            if r["viol"]:
+                key, what = r["viol"]
+                opk = case["steps"][-1]["op"]
+                if what.startswith("operation-does-not-finish") and stats["confirmed_hangs"].get(opk, 0) < 3:
+                    # re-run alone with a generous limit before believing it
+                    _worker_init()
+                    r2 = run_case(case, limit=8.0)
+                    if not r2["viol"]:
+                        run.drift("slow-operation", {"program": key})
+                        r = r2
+                    else:
+                        key, what = r2["viol"]
+                        stats["confirmed_hangs"][opk] = stats["confirmed_hangs"].get(opk, 0) + 1
+                if r["viol"]:
+                    nbad += 1
+                    run.violation("A:" + key, what, {"kind": "program", "case": case})
                     continue
-                key, what = r2["viol"]
-            run.violation("A:" + key, what, {"kind": "program", "case": case})
-    return evals
+            if r["drift"] and any(k.startswith("operation-raised") for k, _ in r["drift"]):
+                continue
+            post = g.edges[(st, ok)][1]
+            if post not in parent:
+                parent[post] = (st, ok)
+                nxt.append(post)
+        stats["cases"] += len(cases)
+        stats["levels"].append({"states": len(frontier), "transitions": len(cases), "violating": nbad})
+        if cases:
+            samples.append(cases[len(cases) // 2])
+        frontier = nxt
+    stats["unreached_transitions"] = sum(1 for (pre, ok) in g.edges if pre not in parent)
+    return stats, samples
 
 
 # ------------------------------------------------------------ binding B
@@ -560,8 +570,14 @@ def _sweep_chunk(job):
         env = it.environment
         names = [f"p{i + 1}" for i in range(len(POOL_SRC))]
 
+        def render(p):
+            try:
+                return str(env.get(p, None))
+            except RecursionError:      # append(p, p) made the value contain itself
+                return "<cyclic " + p + ">"
+
         def snapshot():
-            return [str(env.get(p, None)) for p in names]
+            return [render(p) for p in names]
 
         def fresh():
             it.interpret(pool_defs(), "c16")
@@ -683,16 +699,11 @@ def run(run):
     g.add(sim)
     if not g.inits or not g.edges:
         raise MachineryError("TLC exported no transitions")
-    g.paths()
-    cases = make_cases(g)
     with ctx.Pool(NPROC, initializer=_worker_init) as pool:
-        evals = replay_cases(run, cases, pool)
-    maxlen = max(len(c["steps"]) for c in cases)
-    run.sample({"A-program": {"label": cases[len(cases) // 2]["label"],
-                              "build": cases[len(cases) // 2]["build"],
-                              "steps": [(s["src"], s["want"]) for s in cases[len(cases) // 2]["steps"]]}})
-    run.sample({"A-program": {"label": cases[-1]["label"], "build": cases[-1]["build"],
-                              "steps": [(s["src"], s["want"]) for s in cases[-1]["steps"]]}})
+        astats, asamples = replay_graph(run, g, pool)
+    for c in asamples[1:4]:
+        run.sample({"A-program": {"label": c["label"], "build": c["build"],
+                                  "steps": [(s["src"], s["want"]) for s in c["steps"]]}})
     never = sorted(a for a, n in res.coverage.items() if n == 0)
     if never:
         run.drift("model-action-never-taken", never)
@@ -709,16 +720,18 @@ def run(run):
                 "rendered_after": [table[i - 1] for i in events[k]["post"]]})
     run.sample({"B-functions": len(funcs), "by_environment": _count_by(funcs), "outcomes": stats})
 
-    run.cov["traces_validated_against_impl"] = len(cases) + ncalls
-    run.cov["evaluations"] = evals + stats.get("calls", 0)
-    run.cov["distinct_nontrivial"] = len(cases) + ncalls
+    run.cov["traces_validated_against_impl"] = astats["cases"] + ncalls
+    run.cov["evaluations"] = astats["evals"] + stats.get("calls", 0)
+    run.cov["distinct_nontrivial"] = astats["cases"] + ncalls
     run.cov["rule"] = ("binding A: one program per distinct transition (pre-state, operation) of the model's "
                        "state graph (path from an initial alias graph + the operation; every name read after "
                        "every operation); binding B: one event per call of a distinct function definition on "
                        "a distinct argument tuple, validated by Heap_Trace; evaluations counts interpreter calls")
     run.cov["exhaustive"] = True
     run.cov["bounds"] = {"cfg": cfg, "bfs_transitions": nbfs, "transitions_with_random_walks": len(g.edges),
-                         "longest_program": maxlen, "random_walks": walks,
+                         "longest_program": astats["longest"], "random_walks": walks,
+                         "A_levels": astats["levels"],
+                         "A_transitions_not_replayed_behind_a_violation": astats["unreached_transitions"],
                          "B_functions": len(funcs), "B_calls": ncalls, "B_max_arity": maxar,
                          "B_tuple_cap_per_arity": cap, "B_rejected_events": nbad,
                          "B_distinct_renderings": len(table), "processes": NPROC}
